@@ -103,20 +103,50 @@ def build_sim_resource(world, prefix="sim://", chained=False):
 
 
 class FakeResponse:
-    def __init__(self, url, status_code, content):
+    """What the simulated HTTP server answers: enough of requests.Response for plain and streamed downloads."""
+
+    def __init__(self, url, status_code, content, world=None, drop_after=None, headers=None):
         self.url = url
         self.status_code = status_code
-        self.content = content
-        self.reason = {200: "OK", 404: "Not Found", 500: "Internal Server Error", 503: "Service Unavailable"}.get(
-            status_code, "")
+        self._content = content
+        self._world = world
+        self._drop_after = drop_after  # number of pieces delivered before the connection breaks
+        self.headers = dict(headers or {})
+        self.headers.setdefault("Content-Length", str(len(content)))
+        self.reason = {200: "OK", 206: "Partial Content", 404: "Not Found", 500: "Internal Server Error",
+                       503: "Service Unavailable"}.get(status_code, "")
+        self.encoding = None
+
+    @property
+    def content(self):
+        if self._drop_after is not None:
+            import requests as _rq
+            raise _rq.exceptions.ChunkedEncodingError("injected: connection broken while reading the body")
+        return self._content
 
     @property
     def text(self):
-        return self.content.decode("latin-1")
+        return self._content.decode("latin-1")
 
     @property
     def ok(self):
         return self.status_code < 400
+
+    def iter_content(self, chunk_size=1, decode_unicode=False):
+        import requests as _rq
+        w = self._world
+        piece = max(1, min(chunk_size or 1, (w.chunk if w is not None else 4096)))
+        data = self._content
+        n = 0
+        for i in range(0, len(data), piece):
+            if self._drop_after is not None and n >= self._drop_after:
+                raise _rq.exceptions.ChunkedEncodingError("injected: connection broken while reading the body")
+            if w is not None:
+                w.sched("net.chunk", self.url, len(data[i:i + piece]))
+            yield data[i:i + piece]
+            n += 1
+        if self._drop_after is not None and n <= self._drop_after:
+            raise _rq.exceptions.ChunkedEncodingError("injected: connection broken while reading the body")
 
     def raise_for_status(self):
         import requests as _rq
@@ -126,6 +156,15 @@ class FakeResponse:
         if 500 <= self.status_code < 600:
             raise _rq.exceptions.HTTPError("%d Server Error: %s for url: %s" % (self.status_code, self.reason, self.url),
                                            response=self)
+
+    def close(self):
+        pass
+
+    def __enter__(self):
+        return self
+
+    def __exit__(self, *a):
+        return False
 
 
 class _Api:
